@@ -128,7 +128,7 @@ ClCheck(c, op, o, ev) ==
                \/ ev.s # (IF op.snd.ok THEN "ok" ELSE "SendTaskError"))
         THEN {"C10_SendComplete"} ELSE {})
   \cup (IF ev.e = "kiqret" /\ ~op.snd.active THEN {"C10_SendComplete"} ELSE {})
-  \cup (IF ev.e = "ran" /\ op.snd.active /\ op.snd.seq # ExpectedSend(c, op.snd.gen0, TRUE, Hk(op.snd))
+  \cup (IF ev.e = "ran" /\ op.snd.active /\ op.snd.seq # ExpectedSend(c, op.snd.gen0, op.run.mode # "failk", Hk(op.snd))
         THEN {"C10_SendComplete"} ELSE {})
   (* ---------------- C11 ---------------- *)
   \cup (IF ev.e = "kick" /\ sn.origin \in {"retry", "requeue"} /\ ev.tid # sn.etid THEN {"C11_SameTaskId"} ELSE {})
